@@ -263,7 +263,7 @@ pub fn run(cfg: &Cfg, rep: &mut Report) {
     // (ii) random long sequences through the binary path, every layout-fixed opcode over the run
     let d = db();
     let fixed: Vec<usize> = d.insts.iter().enumerate().filter(|(_, ri)| !matches!(spec::classify(&ri.opname), Sym::Unspecified)).map(|(i, _)| i).collect();
-    let n = cfg.n(fixed.len() as u64 * 20, fixed.len() as u64 * 120);
+    let n = cfg.n(fixed.len() as u64 * 20, fixed.len() as u64 * 4000);
     let fixed_ref = &fixed;
     run_stage(cfg, rep, "random", n, |idx, rng, r| {
         let must = fixed_ref[(idx % fixed_ref.len() as u64) as usize];
